@@ -1043,6 +1043,8 @@ pub struct Program {
     /// GSUB lookups that exactly one feature may reference (exponential growth passes)
     pub exclusive: Vec<u16>,
     pub depth: usize,
+    /// factor by which the exponential passes of a "grow" program multiply a run at most (1 otherwise)
+    pub growth: f64,
 }
 
 fn lk(ty: u16, sub: Vec<u8>) -> Lk {
@@ -1104,7 +1106,7 @@ fn random_gpos_lookup(rng: &mut Rng, pool: &mut Pool, nlookups: u16) -> Lk {
 }
 
 pub fn gen_program(rng: &mut Rng, pool: &mut Pool, kind: &'static str, text_len_hint: usize) -> Program {
-    let mut p = Program { kind, gsub: Vec::new(), gpos: Vec::new(), gsub_entry: Vec::new(), gpos_entry: Vec::new(), exclusive: Vec::new(), depth: 0 };
+    let mut p = Program { kind, gsub: Vec::new(), gpos: Vec::new(), gsub_entry: Vec::new(), gpos_entry: Vec::new(), exclusive: Vec::new(), depth: 0, growth: 1.0 };
     let eager = |chain: bool, fmt: u16| CtxOpts { chain, fmt, beyond: false, class0: false, eager: true };
     match kind {
         "cycle" | "nest" => {
@@ -1172,7 +1174,7 @@ pub fn gen_program(rng: &mut Rng, pool: &mut Pool, kind: &'static str, text_len_
         }
         "grow" | "grow-probe" => {
             // f hot glyphs per hot glyph and pass. Every pass is a lookup of its own that exactly
-            // one feature references, so the run grows by at most f^passes: capped at ~24k glyphs
+            // one feature references, so the run grows by at most f^passes: capped at ~16k glyphs
             // for a 64-character text. ("grow-probe" goes beyond that on purpose: allsorts has no
             // limit on the length of the run, see known_findings.json.)
             let probe = kind == "grow-probe";
@@ -1180,7 +1182,7 @@ pub fn gen_program(rng: &mut Rng, pool: &mut Pool, kind: &'static str, text_len_
             let ctx_pass = !probe && rng.chance(1, 3);
             let mut passes = 1;
             let mut size = text_len_hint.max(4) * f * if ctx_pass { f } else { 1 };
-            while passes < 6 && size * f <= 24_000 && rng.chance(4, 5) {
+            while passes < 6 && size * f <= 16_000 && rng.chance(4, 5) {
                 passes += 1;
                 size *= f;
             }
@@ -1188,6 +1190,7 @@ pub fn gen_program(rng: &mut Rng, pool: &mut Pool, kind: &'static str, text_len_
                 passes = 2;
             }
             p.depth = passes;
+            p.growth = (f as f64).powi(passes as i32 + if ctx_pass { 1 } else { 0 });
             for _ in 0..passes {
                 let cov = pool.hot.clone();
                 p.gsub_entry.push(p.gsub.len() as u16);
